@@ -16,6 +16,7 @@ import (
 	"google.golang.org/grpc/codes"
 	"google.golang.org/grpc/connectivity"
 	"google.golang.org/grpc/resolver"
+	"google.golang.org/grpc/serviceconfig"
 	"google.golang.org/grpc/status"
 	"google.golang.org/protobuf/proto"
 
@@ -337,8 +338,15 @@ func (w *world) opResolve(op *Op) {
 		}
 	}
 	wasEmpty := w.alive() == 0
-	li := ((op.Addrs % 4) + 4) % 4
+	li := addrIdx(op.Addrs)
 	ccs := balancer.ClientConnState{ResolverState: resolver.State{Addresses: addrSets[li]}}
+	if op.SC {
+		ccs.ResolverState.ServiceConfig = &serviceconfig.ParseResult{}
+		w.labels["resolve-with-service-config"]++
+	}
+	if li >= 4 {
+		w.labels["resolve-attributes-only-variant"]++
+	}
 	var cfgUsed *Config
 	switch op.Cfg {
 	case 0:
